@@ -67,6 +67,8 @@ var fieldTypes = map[string]typ{
 	// x/epochs: EpochInfo
 	"StartTime": tTime, "Duration": tDur, "CurrentEpoch": tNum, "CurrentEpochStartTime": tTime,
 	"EpochCountingStarted": tBool, "CurrentEpochStartHeight": tNum, "Identifier": tStr,
+	// x/erc20: types.ERC20BoolResponse (the unpacked return value of transfer)
+	"Value": tBool,
 }
 
 // opaqueMethods: result types of methods called on opaque receivers (keepers, contexts, messages), by method name.
@@ -81,7 +83,18 @@ var opaqueMethods = map[string][]typ{
 	"GetSupply":                {tCoin},
 	"GetPool":                  {tOpaque, tBool}, "GetPoolByLptDenom": {tOpaque, tBool},
 	"GetNFTByContract": {tNum, tBool}, "GetCSR": {tOpaque, tBool}, "GetTurnstile": {tOpaque, tBool},
+	// x/erc20: the token balance as answered by the contract (nil = no usable answer), the bank balance
+	"BalanceOf": {tBig}, "GetBalance": {tCoin},
 }
+
+// stateReads: keeper reads whose answer depends on what was done before them on the path.  The same call text
+// before and after an effect call names two different inputs: the provenance gets the suffix "@n", n being the
+// number of effect calls made on the path before the read.
+var stateReads = map[string]bool{"BalanceOf": true, "GetBalance": true}
+
+// modelledBools: boolean fields read from outside whose test is part of the generated definition (a guard on a
+// boolean input) instead of an external guard listed in gen_f_assumes.
+var modelledBools = map[string]bool{"Value": true}
 
 // effects: calls whose numeric / coin arguments are what the code hands to the bank, the EVM, the store or a
 // listener; their values become outputs of the generated definition, in call order.
@@ -91,6 +104,8 @@ var effects = map[string]bool{
 	"SendCoinsFromModuleToAccount": true, "MintCoins": true, "BurnCoins": true,
 	"CallMethod": true, "SetCSR": true,
 	"SetEpochInfo": true, "AfterEpochEnd": true, "BeforeEpochStart": true,
+	// x/erc20: the committing EVM calls and the packing of the transfer's arguments
+	"CallEVM": true, "CallEVMWithData": true, "Pack": true,
 }
 
 // packages whose calls build an error value: `return ..., <call into one of these>` is a failing return
